@@ -49,7 +49,10 @@ class C10(Check):
                 if name.endswith(b"/"):
                     content, method, kw = b"", 0, {}
                 ents.append(Entry(name, content, method=method, utf8=r.random() < 0.5, z64_local=r.random() < 0.2,
-                                  extra_local=r.choice([b"", struct.pack("<HH2s", 0xcafe, 2, b"ab")]),
+                                  extra_local=r.choice([b"", struct.pack("<HH2s", 0xcafe, 2, b"ab"), b"", b"\0", b"\0\0\0",
+                                                        struct.pack("<HH2s", 0xcafe, 2, b"ab") + b"\0\0",           # zipalign-style padding
+                                                        struct.pack("<HH", 0xbeef, 9) + b"short",                 # record longer than the field
+                                                        struct.pack("<HH", 0x5455, 5) + b"\x01abcd" + b"\0"]),
                                   extra_central=r.choice([b"", struct.pack("<HH1s", 0xbeef, 1, b"q")]),
                                   comment=r.choice([b"", b"fc"]), ext_attr=r.choice([0o100644 << 16, 0o100755 << 16, 0o40755 << 16, 0]),
                                   date_time=(r.randrange(65536), r.randrange(65536)), **kw))
